@@ -4,6 +4,7 @@ import Sheens.Driver.Crew
 import Sheens.Driver.MCrew
 import Sheens.Driver.Timers
 import Sheens.Driver.Expect
+import Sheens.Driver.Tools
 
 /-! `driver`: one JSON op per line in, one JSON verdict line out. -/
 
@@ -18,6 +19,7 @@ def dispatch (j : Json) : Json :=
   | "mcrew" => Driver.handleMCrew j
   | "timers" => Driver.handleTimers j
   | "expect" => Driver.handleExpect j
+  | "tools" => Driver.handleTools j
   | op => Json.mkObj [("error", Json.str ("unknown op " ++ op))]
 
 partial def loop (hin : IO.FS.Stream) (hout : IO.FS.Stream) : IO Unit := do
